@@ -233,6 +233,23 @@ def firing_mutants(src: dict[str, str]) -> list[dict]:
     for rel in ("rules_inline/newline.py", "rules_inline/escape.py", "rules_inline/entity.py", "rules_inline/autolink.py"):
         m += _each(rel, src, lambda n: isinstance(n, (ast.Assign, ast.AugAssign)) and U(n.targets[0] if isinstance(n, ast.Assign) else n.target) == "state.pos",
                    lambda n: ast.Pass(), "C01", "state.pos store dropped", 1)
+    # C01 (LOOPVAR): the increment in front of a `continue` dropped / an increment turned into += 0
+    for rel in ("rules_block/blockquote.py", "rules_block/lheading.py", "rules_block/paragraph.py", "rules_block/code.py", "rules_inline/balance_pairs.py",
+                "rules_inline/strikethrough.py", "helpers/parse_link_destination.py", "rules_block/table.py"):
+        t0 = ast.parse(src[rel])
+        victims: list[tuple[int, int]] = []
+        for w in ast.walk(t0):
+            for fld in ("body", "orelse"):
+                blk = getattr(w, fld, None)
+                if isinstance(blk, list):
+                    for a_, b_ in zip(blk, blk[1:]):
+                        if isinstance(a_, ast.AugAssign) and isinstance(b_, ast.Continue) and isinstance(a_.value, ast.Constant):
+                            victims.append((a_.lineno, a_.col_offset))
+        m += _each(rel, src, lambda n, victims=victims: isinstance(n, ast.AugAssign) and (n.lineno, n.col_offset) in victims, lambda n: ast.Pass(),
+                   "C01", "increment before `continue` dropped", 2)
+    # C01 (LOOPVAR): the dispatcher's / skipToken's own step on "no rule matched" dropped
+    m += _each("parser_inline.py", src, lambda n: isinstance(n, ast.AugAssign) and U(n.target) == "state.pos", lambda n: ast.Pass(), "C01",
+               "fallback `state.pos += 1` dropped", 2)
     # C12/C13: class-level cache on a state class
     def add_class_attr(rel, cls):
         def make():
